@@ -5,18 +5,22 @@ import (
 	"errors"
 
 	"github.com/tokenized/pkg/wire"
+	"github.com/tokenized/spynode/internal/state"
 )
 
 // TXHandler exists to handle the tx command.
 type UntrustedTXHandler struct {
 	ready     StateReady
+	memPool   *state.MemPool
 	txChannel *TxChannel
 }
 
 // NewTXHandler returns a new TXHandler with the given Config.
-func NewUntrustedTXHandler(ready StateReady, txChannel *TxChannel) *UntrustedTXHandler {
+func NewUntrustedTXHandler(ready StateReady, memPool *state.MemPool,
+	txChannel *TxChannel) *UntrustedTXHandler {
 	result := UntrustedTXHandler{
 		ready:     ready,
+		memPool:   memPool,
 		txChannel: txChannel,
 	}
 	return &result
@@ -37,6 +41,7 @@ func (handler *UntrustedTXHandler) Handle(ctx context.Context,
 		return nil, nil
 	}
 
+	handler.memPool.MarkReceived(ctx, *msg.TxHash())
 	handler.txChannel.Add(TxData{Msg: msg, Trusted: false, ConfirmedHeight: -1})
 	return nil, nil
 }
